@@ -263,7 +263,7 @@ pub fn gen_text(rng: &mut Rng, hostile: bool, control: bool) -> String {
     }
     // U+FEFF (zero-width no-break space / byte-order mark) only inside the text: at its ends a reader may count it
     // as blank, like the spaces around it
-    let s = s.trim().trim_matches('\u{feff}').trim().to_string();
+    let s = s.trim_matches(|c: char| c.is_whitespace() || c == '\u{feff}').to_string();
     if s.is_empty() || s.contains("CTEEPBD_") {
         "c".into()
     } else {
